@@ -171,9 +171,14 @@ def tokens_of(data):
             continue
         if len(s) < 2:
             continue
-        out.add(s)
-        if "." in s:
-            out.update(p for p in s.split(".") if len(p) >= 2)
+        # text opcodes glue their opcode letter to the name that follows (b"cos\nsystem\n", b"ios\n..."),
+        # so the name with its first character removed is an input-derived token as well
+        for t in (s, s[1:]):
+            if len(t) < 2:
+                continue
+            out.add(t)
+            if "." in t:
+                out.update(p for p in t.split(".") if len(p) >= 2)
     return out
 
 
